@@ -1285,6 +1285,7 @@ fn prov_labels() -> Vec<(&'static str, &'static str)> {
         ("Credentials", "prov_pair_credentials"), ("TransactionInputs", "prov_pair_inputs"), ("Vkeywitnesses", "prov_pair_vkeys"),
         ("BootstrapWitnesses", "prov_pair_bootstraps"), ("TransactionWitnessSet", "prov_pair_native_scripts_in_ws"),
         ("TransactionWitnessSet", "prov_pair_plutus_scripts_in_ws"),
+        ("Transaction", "pin_net_zero_mint"), ("Transaction", "pin_collateral_zero_only_policy"), ("Transaction", "pin_mixed_bundle_output"),
     ]
 }
 fn dec<T, E>(r: Result<T, E>) -> Result<T, ()> { r.map_err(|_| ()) }
@@ -1500,6 +1501,68 @@ fn prov(ty: &str, label: &str, k: u64) -> Option<Result<Vec<u8>, ()>> {
                 let mut c = PlutusScripts::new(); c.add(&x); c.add(&y);
                 let mut ws = TransactionWitnessSet::new(); ws.set_plutus_scripts(&c); ws.to_bytes() })
         }
+        // PINNED builder triggers (deterministic; also in corpus/C03/w2-pinned.case)
+        "pin_net_zero_mint" | "pin_collateral_zero_only_policy" | "pin_mixed_bundle_output" => {
+            let run = |g: &mut G| -> Result<Vec<u8>, JsError> {
+                let cfg = TransactionBuilderConfigBuilder::new().fee_algo(&LinearFee::new(&bn(44), &bn(155381)))
+                    .pool_deposit(&bn(500 * ADA)).key_deposit(&bn(2 * ADA)).max_value_size(5000).max_tx_size(16384)
+                    .coins_per_utxo_byte(&bn(4310)).build()?;
+                let mut tb = TransactionBuilder::new(&cfg);
+                let (pa, pb) = (g.sh(), g.sh());
+                let (n1, n2) = (AssetName::new(b"token".to_vec())?, AssetName::new(b"spent".to_vec())?);
+                let change = g.key_address();
+                match label {
+                    "pin_net_zero_mint" => {
+                        // add_asset(+q) then add_asset(-q) on one line (k odd: next to a live line): build must refuse, never emit `=> 0`
+                        let script = g.policy_script();
+                        let wit = MintWitness::new_native_script(&NativeScriptSource::new(&script));
+                        let q = 1 + g.below(1000);
+                        let mut mb = MintBuilder::new();
+                        mb.add_asset(&wit, &n2, &Int::new(&bn(q)))?; mb.add_asset(&wit, &n2, &Int::new_negative(&bn(q)))?;
+                        if k % 2 == 1 { mb.add_asset(&wit, &n1, &Int::new(&bn(7)))?; }
+                        tb.set_mint_builder(&mb);
+                        tb.add_key_input(&g.kh(), &g.tx_in(), &Value::new(&bn(10 * ADA)));
+                        // the live line (k odd) goes to the output; NO change output: the whole surplus is the fee (since
+                        // /repo bb8d7fa a change output carrying the zero quantity would be refused by add_output)
+                        let out_v = if k % 2 == 1 { let mut a = Assets::new(); a.insert(&n1, &bn(7)); let mut ma = MultiAsset::new(); ma.insert(&script.hash(), &a);
+                                                    Value::new_with_assets(&bn(2 * ADA), &ma) } else { Value::new(&bn(2 * ADA)) };
+                        tb.add_output(&TransactionOutput::new(&g.key_address(), &out_v))?;
+                        tb.set_fee(&bn(8 * ADA));
+                        tb.add_change_if_needed(&change)?;
+                        // judged on the body build() releases: build_tx's structural balance check refuses a total input that
+                        // carries the zero-quantity minted entry no output can carry any more
+                        Ok(Transaction::new(&tb.build()?, &TransactionWitnessSet::new(), None).to_bytes())
+                    }
+                    "pin_collateral_zero_only_policy" => {
+                        // the ONLY asset-carrying collateral input: policy A with a real asset, policy B with only a zero quantity
+                        // (k odd: also an asset-less policy); the return is computed by the builder
+                        let mut a = Assets::new(); a.insert(&n1, &bn(5));
+                        let mut b = Assets::new(); b.insert(&n2, &bn(0));
+                        let mut ma = MultiAsset::new(); ma.insert(&pa, &a); ma.insert(&pb, &b);
+                        if k % 2 == 1 { ma.insert(&g.sh(), &Assets::new()); }
+                        let mut ib = TxInputsBuilder::new();
+                        ib.add_key_input(&g.kh(), &g.tx_in(), &Value::new_with_assets(&bn(8 * ADA), &ma));
+                        tb.set_collateral(&ib);
+                        tb.set_total_collateral_and_return(&bn(3 * ADA), &g.key_address())?;
+                        tb.add_key_input(&g.kh(), &g.tx_in(), &Value::new(&bn(10 * ADA)));
+                        tb.add_output(&TransactionOutput::new(&g.key_address(), &Value::new(&bn(2 * ADA))))?;
+                        tb.add_change_if_needed(&change)?;
+                        Ok(tb.build_tx()?.to_bytes())
+                    }
+                    _ => {
+                        // an output REQUESTED with a zero quantity next to a positive one under one policy (k odd: a zero-only policy)
+                        let mut a = Assets::new(); if k % 2 == 0 { a.insert(&n1, &bn(5)); } a.insert(&n2, &bn(0));
+                        let mut ma = MultiAsset::new(); ma.insert(&pa, &a);
+                        let v = Value::new_with_assets(&bn(3 * ADA), &ma);
+                        tb.add_regular_input(&g.key_address(), &g.tx_in(), &Value::new_with_assets(&bn(10 * ADA), &ma))?;
+                        tb.add_output(&TransactionOutput::new(&g.key_address(), &v))?;
+                        tb.add_change_if_needed(&change)?;
+                        Ok(Transaction::new(&tb.build()?, &TransactionWitnessSet::new(), None).to_bytes())
+                    }
+                }
+            };
+            run(g).map_err(|_| ())
+        }
         "prov_parts_into_transaction" => {
             // body, witness set and auxiliary data each decoded from their own bytes, then assembled
             let (bm, wm, ak) = (g.r.next() & ALL_BODY, g.r.next() & ALL_WITS, g.below(7));
@@ -1549,25 +1612,27 @@ fn ma_of(pols: &[Policy], m: &Holdings) -> MultiAsset {
 /// an empty policy bundle (what Assets::insert(name, 0) / MultiAsset::insert(policy, Assets::new()) admit)
 fn degenerate_value(v: &Value, g: &mut G, pols: &[Policy]) -> Value {
     let mut ma = v.multiasset().unwrap_or(MultiAsset::new());
-    // MIXED bundle first: a zero quantity next to a positive one under a policy the value already holds
+    // every shape is an INDEPENDENT draw (at least one is applied):
+    //   mixed  a zero quantity next to a positive one under a policy the value already holds
+    //   zpol   a policy holding only a zero quantity (one of the scenario's policies or a fresh one)
+    //   epol   a policy with no asset at all
+    let (mut mixed, mut zpol, mut epol) = (g.chance(1, 2), g.chance(1, 2), g.chance(1, 2));
+    if !(mixed || zpol || epol) { match g.below(3) { 0 => mixed = true, 1 => zpol = true, _ => epol = true } }
     let held = ma.keys();
-    let mut mixed = false;
-    if held.len() > 0 && g.chance(3, 4) {
+    if mixed && held.len() > 0 {
         let pid = held.get(g.below(held.len() as u64) as usize);
         let mut name = g.asset_name();
         let mut tries = 0;
         while !ma.get_asset(&pid, &name).is_zero() && tries < 8 { name = g.asset_name(); tries += 1; }
-        if ma.get_asset(&pid, &name).is_zero() { ma.set_asset(&pid, &name, &bn(0)); mixed = true; }
-    }
-    let how = if mixed { g.below(4) } else { 1 + g.below(3) };
-    if how & 1 != 0 {
-        // a zero-only policy (next to the positive ones, if any)
+        if ma.get_asset(&pid, &name).is_zero() { ma.set_asset(&pid, &name, &bn(0)); }
+    } else if mixed { zpol = true; }
+    if zpol {
         let name = g.asset_name();
-        let pid = if !pols.is_empty() && g.chance(2, 3) { pols[g.below(pols.len() as u64) as usize].id.clone() } else { g.sh() };
+        let pid = if !pols.is_empty() && g.chance(1, 2) { pols[g.below(pols.len() as u64) as usize].id.clone() } else { g.sh() };
         // never overwrite a real holding
         if ma.get_asset(&pid, &name).is_zero() { ma.set_asset(&pid, &name, &bn(0)); }
     }
-    if how & 2 != 0 { let pid = g.sh(); if ma.get(&pid).is_none() { ma.insert(&pid, &Assets::new()); } }
+    if epol { let pid = g.sh(); if ma.get(&pid).is_none() { ma.insert(&pid, &Assets::new()); } }
     Value::new_with_assets(&v.coin(), &ma)
 }
 fn value_of(coin: u64, pols: &[Policy], m: &Holdings) -> Value {
@@ -2110,7 +2175,7 @@ fn exec(toks: &[String]) -> String {
         Some("api") => {
             if toks.len() != 4 { return "harness-badcase".into(); }
             let k: u64 = match toks[3].parse() { Ok(k) => k, Err(_) => return "harness-badcase".into() };
-            if toks[2].starts_with("prov_") {
+            if toks[2].starts_with("prov_") || toks[2].starts_with("pin_") {
                 return match prov(&toks[1], &toks[2], k) {
                     Some(Ok(b)) => format!("ok {}", hex_or_dash(&b)), Some(Err(())) => "rejected".to_string(), None => "skip unknown-label".to_string() };
             }
